@@ -261,7 +261,7 @@ func randFileText(r *rng, ft byte, k fileKnobs) string {
 	if r.chance(35) {
 		size = 12
 	}
-	proto := []int{0x10, 0x20}[r.intn(2)]
+	proto := []int{0x10, 0x20, 0x20, 0x20, 0x00, 0x15, 0x21, 0x2F}[r.intn(8)]
 	hdr := fmt.Sprintf("H%d/%d/%d/%d/2e464954/%d", size, proto, r.intn(65536), r.intn(100000), r.intn(65536))
 	// file_id: type fixed, other fields random
 	fidVals := invalidVals(0)
